@@ -61,7 +61,7 @@ def run_once(case: Dict[str, Any], oracles: Sequence[str], res: CaseResult, M: M
     tag = f" [mode={out.ex.mode} choices={[t[0] for t in out.ex.taken]}]"
     for name in oracles:
         if name == "values":
-            if out.exc is None and out.ref_exc is None and out.value != out.ref_value:
+            if out.exc is None and out.ref_exc is None and out.value != out.ref_value and case.get("call") != "setup":
                 res.viol("value", f"returned {out.value!r}, reference {out.ref_value!r}" + tag)
             if out.exc is None and isinstance(out.ref_exc, (KeyError, IndexError)):
                 res.viol("bad-index-not-raised", f"the function body raises {type(out.ref_exc).__name__} on a bad index, the call returned {out.value!r}" + tag)
@@ -193,6 +193,9 @@ def sched_case(
     reconf_rate: float = 0.15,
     index_rate: float = 0.0,
     bad_index_rate: float = 0.0,
+    n_setup: int = 0,
+    n_debug: int = 0,
+    setup_call_rate: float = 0.0,
 ) -> Dict[str, Any]:
     mode = draw(st.sampled_from(list(modes)))
     res_pool = list(resources)
@@ -205,7 +208,9 @@ def sched_case(
     sel_on = bool(sel_rate) and draw(st.floats(0, 1)) < sel_rate
     P = draw(gen.flat_prog(min_sites=min_sites, max_sites=ms, max_deps=max_deps, resources=res_pool, prio_range=prio,
                            seq_rate=seq_rate, dep_kinds=kinds, wide=wide, reuse=reuse, n_params=n_params,
-                           mark_roots=not sel_on, index_rate=index_rate, bad_index_rate=bad_index_rate))
+                           mark_roots=not sel_on, index_rate=index_rate, bad_index_rate=bad_index_rate,
+                           n_setup=draw(st.integers(0, n_setup)) if n_setup else 0,
+                           n_debug=draw(st.integers(0, n_debug)) if n_debug else 0))
     sites = [s["site"] for s in P["body"]]
     case: Dict[str, Any] = {"prog": P, "mc": draw(st.integers(min_mc, max_mc)), "async": draw(st.booleans()), "mode": mode}
     if flags:
@@ -234,6 +239,12 @@ def sched_case(
         case["failing"] = draw(st.lists(st.sampled_from(pool), min_size=1, max_size=k, unique=True))
     if sel_on:
         case["sel"] = draw(selection_strategy(P))
+    if setup_call_rate and draw(st.floats(0, 1)) < setup_call_rate:
+        case["call"] = "setup"  # dag.setup(target_nodes=...) instead of a call
+        case["sel"] = {"T": draw(st.lists(st.sampled_from(sites), min_size=0, max_size=3, unique=True))} if draw(st.booleans()) else None
+        case.pop("failing", None)
+    if n_debug and draw(st.booleans()):
+        case["debug"] = True
     if case["async"] and draw(st.sampled_from([True, False, False, False])):
         case["small_loop_pool"] = True  # AsyncDAG awaited in a loop whose default executor has a single worker
     if reconf_rate and draw(st.floats(0, 1)) < reconf_rate:
